@@ -158,16 +158,17 @@ MkCfg(ca, ce, cm, cx, sa, se, sm, sx, cmd) ==
   [c |-> [auth |-> ca, enc |-> ce, methods |-> cm, ciphers |-> cx],
    s |-> [auth |-> sa, enc |-> se, methods |-> sm, ciphers |-> sx], cmd |-> cmd]
 
-(* (nested quantifiers: TLC enumerates them far faster than a set of records) *)
-CfgFromConstants ==
-  \E ca \in CAuth, sa \in SAuth, ce \in CEnc, se \in SEnc, cm \in CMethods, sm \in SMethods,
-     cx \in CCiphers, sx \in SCiphers, cmd \in CmdModes :
-       /\ SameLists => cm = sm
-       /\ cfg = MkCfg(ca, ce, cm, cx, sa, se, sm, sx, cmd)
+(* The policy LEVELS are fixed in the initial state; the lists and the command
+   mode are filled in by the first action, Configure.  (Same reachable
+   configurations as choosing everything at Init, but TLC computes initial
+   states on one thread and successors on all of them.)                      *)
+LevelsFromConstants ==
+  \E ca \in CAuth, sa \in SAuth, ce \in CEnc, se \in SEnc :
+       cfg = MkCfg(ca, ce, << >>, << >>, sa, se, << >>, << >>, TRUE)
 
 InitRest ==
   /\ shape \in Shapes
-  /\ pc = [c |-> IF shape = "resume" THEN "rstart" ELSE "start", s |-> "waitHello"]
+  /\ pc = [c |-> "config", s |-> "waitHello"]
   /\ chan = [d \in Dir |-> << >>]
   /\ nsent = [d \in Dir |-> 0]
   /\ dec = NoDec /\ cview = NoView
@@ -184,7 +185,7 @@ InitRest ==
   /\ appAccepted = [e \in End |-> FALSE]
   /\ relayLeft = RelayBudget /\ tampered = FALSE
 
-Init == CfgFromConstants /\ InitRest
+Init == LevelsFromConstants /\ InitRest
 
 -----------------------------------------------------------------------------
 (* Frames.  k: kind; n: index among the frames of its direction; v: what the
@@ -241,6 +242,18 @@ Fail(e, why) ==
 Terminal(e) == pc[e] \in {"done", "failed"}
 
 -----------------------------------------------------------------------------
+(* The configuration is completed: method lists, cipher lists, command mode.  *)
+ConfigureWith(cm, sm, cx, sx, cmd) ==
+  /\ pc["c"] = "config"
+  /\ SameLists => cm = sm
+  /\ cfg' = MkCfg(cfg.c.auth, cfg.c.enc, cm, cx, cfg.s.auth, cfg.s.enc, sm, sx, cmd)
+  /\ pc' = [pc EXCEPT !["c"] = IF shape = "resume" THEN "rstart" ELSE "start"]
+  /\ UNCHANGED <<shape, chan, nsent, dec, cview, offer, sel, mstep, ran, key, sentClear, recvClear,
+                 frozen, protSent, protRecv, confirmed, outcome, stored, appAccepted, relayLeft, tampered>>
+Configure ==
+  \E cm \in CMethods, sm \in SMethods, cx \in CCiphers, sx \in SCiphers, cmd \in CmdModes :
+     ConfigureWith(cm, sm, cx, sx, cmd)
+
 (* Full handshake, client side *)
 
 ClientHello ==
@@ -612,11 +625,13 @@ Relay == \E d \in Dir, p \in 1..3 :
            \/ InsertFrame(d, p) \/ RemoveFrame(d, p) \/ Split(d, p) \/ Merge(d, p)
 
 -----------------------------------------------------------------------------
-Honest ==
+Protocol ==
   \/ ClientHello \/ ServerNegotiate \/ ClientReadServerAd \/ BitmaskOffer \/ ServerSelect
   \/ ClientReadSelect \/ PostAuthSend \/ PostAuthRecv
   \/ ResumeRequest \/ ResumeReply \/ ResumeRecv
   \/ \E e \in End : RunMethod(e) \/ KeyExchange(e) \/ InstallKey(e) \/ Store(e) \/ AppSend(e) \/ AppRecv(e)
+
+Honest == Configure \/ Protocol
 
 Next == Honest \/ Relay \/ \E e \in End : Abort(e) \/ SkipOdd(e)
 
@@ -666,7 +681,7 @@ HonestEncryptedTalks ==
      => \A e \in End : appAccepted[e] /\ confirmed[e]
 
 TypeOK ==
-  /\ pc \in [End -> {"start", "waitAd", "offer", "waitSel", "meth", "waitKx", "install", "waitPost",
+  /\ pc \in [End -> {"config", "start", "waitAd", "offer", "waitSel", "meth", "waitKx", "install", "waitPost",
                      "store", "post", "app", "appwait", "done", "failed", "waitHello", "waitOffer",
                      "kx", "rstart", "rwait"}]
   /\ relayLeft \in 0..RelayBudget
